@@ -420,8 +420,20 @@ def check_gates(ck, prog):
         over = {}
         if qual.endswith('write_nickname'):
             over[fn.params[1]] = Opaque('param:nickname', (), 'str')
-        for answer, label in ((TRUE, 'True'), (FALSE, 'False'), (NONE, 'None')):
-            outs = run_helper(prog, fn, overrides=over, hooks=LegacyHooks(minver_answers=(answer,)))
+        # flag parameters (verbose=True and the like) are part of the request: every setting
+        import itertools as _it
+        flags = [p_ for p_, d_ in fn.defaults().items()
+                 if isinstance(d_, ast.Constant) and isinstance(d_.value, bool)][:3]
+        settings = [dict(zip(flags, vals)) for vals in _it.product((True, False), repeat=len(flags))]
+        for (answer, label), setting in _it.product(
+                ((TRUE, 'True'), (FALSE, 'False'), (NONE, 'None')), settings):
+            over_s = dict(over)
+            for p_, v_ in setting.items():
+                over_s[p_] = Const(v_)
+            if setting and any(v_ != fn.defaults()[p_].value for p_, v_ in setting.items()):
+                label = label + ', ' + ', '.join('%s=%s' % kv for kv in sorted(setting.items()))
+            outs = run_helper(prog, fn, overrides=over_s,
+                              hooks=LegacyHooks(minver_answers=(answer,)))
             sent, thresholds = [], set()
             for o in outs:
                 for e in o.state.effects:
@@ -439,6 +451,7 @@ def check_gates(ck, prog):
                         sent.append('<direct write>')
             inst = '%s[min_version answers %s]' % (qual, label)
             n += 1
+            label = label.split(',')[0]
             if answer == TRUE:
                 ck.ob('C15-D5-gate', inst, bool(sent) and all(s.startswith(cmd) for s in sent),
                       '%s does not send its %s command when the firmware is new enough (sends %s)'
